@@ -122,7 +122,11 @@ TRUSTED["numpy.ndarray.copy"] = "a.copy(): fresh array with equal contents"
 @model("numpy.ndarray.astype", "astype: same values reinterpreted (int<->float embedding, to str opaque)")
 def _astype(i, args, kw, node, fr):
     a = args[0]
-    elem = dtype_arg(i, args[1] if len(args) > 1 else kw.get("dtype"), node)
+    dt = args[1] if len(args) > 1 else kw.get("dtype")
+    dname = dt.name if isinstance(dt, Builtin) else (dt.dotted.rsplit(".", 1)[-1] if isinstance(dt, ModuleRef) else str(dt))
+    if a.elem_sort == Val and dname == "float32":
+        return pointwise_val(i, a, "float32", node)
+    elem = dtype_arg(i, dt, node)
     if elem == a.elem_sort:
         return copy_arr(i, a)
     if a.elem_sort == Int and elem == Real:
@@ -299,12 +303,92 @@ def _compare(i, op, a, b, node):
         f = lambda x, y: cv(x) == cv(y)  # noqa
     elif isinstance(op, ast.NotEq):
         f = lambda x, y: cv(x) != cv(y)  # noqa
+    elif es == Val and not isinstance(a if ref is b else b, Arr) and isinstance((a if ref is b else b), (int, float)):
+        # float payloads compared with a numeric constant: an abstract predicate per (operator, constant);
+        # IEEE semantics kept: every ordered comparison with NaN is False
+        const = a if ref is b else b
+        opn = type(op).__name__ if ref is a else {"Lt": "Gt", "LtE": "GtE", "Gt": "Lt", "GtE": "LtE"}[type(op).__name__]
+        pred = val_cmp(opn, const)
+        x_ = z3.Const("x!vc", Val)
+        from .arrays import isnan as _isn
+        i.ctx.assume(z3.ForAll([x_], z3.Implies(_isn(x_), z3.Not(pred(x_))), patterns=[pred(x_)]))
+        if ref.ndim == 1:
+            return define1(i, ref.shape[0], Bool, lambda k: pred(z3.Select(ref.data, k)), "cmp", alts=[lambda k: z3.Select(ref.data, k)])
+        return define2(i, ref.shape[0], ref.shape[1], Bool, lambda r, c: pred(ref.at(r, c)), "cmp")
     else:
         if es in (Str, Val, Bool):
             raise Unsupported("ordering comparison on %s arrays" % es, node)
         f = {ast.Lt: lambda x, y: cv(x) < cv(y), ast.LtE: lambda x, y: cv(x) <= cv(y),
              ast.Gt: lambda x, y: cv(x) > cv(y), ast.GtE: lambda x, y: cv(x) >= cv(y)}[type(op)]
     return _lift2(i, a, b, f, Bool, node, "cmp", opkey="cmp" + type(op).__name__)
+
+
+_VAL_CMP = {}
+
+
+def val_cmp(opn, const):
+    key = (opn, float(const))
+    if key not in _VAL_CMP:
+        _VAL_CMP[key] = z3.Function("val_%s_%s" % (opn, str(float(const)).replace(".", "p").replace("-", "m")), Val, Bool)
+    return _VAL_CMP[key]
+
+
+_VAL_FN = {}
+
+
+def val_fn(name):
+    """an opaque pointwise float function (float32 rounding, clip, logit, ...); NaN propagates"""
+    if name not in _VAL_FN:
+        _VAL_FN[name] = z3.Function(name, Val, Val)
+    return _VAL_FN[name]
+
+
+def pointwise_val(i, a, name, node):
+    from .arrays import isnan as _isn
+    f = val_fn(name)
+    x_ = z3.Const("x!vf", Val)
+    i.ctx.assume(z3.ForAll([x_], z3.Implies(_isn(x_), _isn(f(x_))), patterns=[f(x_)]))
+    if isinstance(a, Arr):
+        check_live(a, node)
+        if a.elem_sort != Val:
+            raise Unsupported("opaque float function %s on %s array" % (name, a.elem_sort), node)
+        if a.ndim == 1:
+            return define1(i, a.shape[0], Val, lambda k: f(z3.Select(a.data, k)), name + "_arr", "val", alts=[lambda k: z3.Select(a.data, k)])
+        return define2(i, a.shape[0], a.shape[1], Val, lambda r, c: f(a.at(r, c)), name + "_arr", "val")
+    return f(a)
+
+
+@model("numpy.clip", "clip(a, lo, hi) pointwise; on float payloads an opaque function per (lo, hi) through which NaN propagates")
+def _clip(i, args, kw, node, fr):
+    a = args[0]
+    lo = kw.get("a_min", args[1] if len(args) > 1 else None)
+    hi = kw.get("a_max", args[2] if len(args) > 2 else None)
+    if isinstance(a, Arr) and a.elem_sort == Val or (is_z3(a) and a.sort() == Val):
+        if not all(isinstance(x, (int, float, type(None))) for x in (lo, hi)):
+            raise Unsupported("clip of float payloads with symbolic bounds", node)
+        return pointwise_val(i, a, "clip_%s_%s" % (str(lo).replace(".", "p").replace("-", "m"), str(hi).replace(".", "p").replace("-", "m")), node)
+    es = a.elem_sort if isinstance(a, Arr) else (a.sort() if is_z3(a) else Real)
+    lo_, hi_ = (to_z3(lo, es) if lo is not None else None), (to_z3(hi, es) if hi is not None else None)
+
+    def f(x):
+        if lo_ is not None:
+            x = z3.If(x < lo_, lo_, x)
+        if hi_ is not None:
+            x = z3.If(x > hi_, hi_, x)
+        return x
+    if isinstance(a, Arr):
+        if a.ndim == 1:
+            return define1(i, a.shape[0], es, lambda k: f(z3.Select(a.data, k)), "clip", alts=[lambda k: z3.Select(a.data, k)])
+        return define2(i, a.shape[0], a.shape[1], es, lambda r, c: f(a.at(r, c)), "clip")
+    return f(to_z3(a, es))
+
+
+@model("scipy.special.logit", "logit pointwise: opaque on float payloads (NaN propagates); log(p/(1-p)) not interpreted")
+def _logit(i, args, kw, node, fr):
+    a = args[0]
+    if (isinstance(a, Arr) and a.elem_sort == Val) or (is_z3(a) and a.sort() == Val):
+        return pointwise_val(i, a, "logit", node)
+    raise Unsupported("logit over reals", node)
 
 
 @hook("inplace")
